@@ -1,0 +1,27 @@
+//go:build verif
+// +build verif
+
+package backend
+
+import (
+	"sync/atomic"
+	"time"
+)
+
+var verifClock atomic.Value // func() time.Time
+
+// nowFn is the clock used by health checks, fuse and recovery decisions.
+func nowFn() time.Time {
+	if f, ok := verifClock.Load().(func() time.Time); ok && f != nil {
+		return f()
+	}
+	return time.Now()
+}
+
+// VerifSetClock installs a clock for verification harnesses (nil restores time.Now).
+func VerifSetClock(f func() time.Time) {
+	if f == nil {
+		f = time.Now
+	}
+	verifClock.Store(f)
+}
